@@ -14,6 +14,19 @@
 //   optionally followed by  nf  { p r } x nf : pairs of ranks that "forget" each other: after the rebuild a second
 //     RemoteIndices object is filled through getModifier<false,true>() with every list except those between p and r, and
 //     the case continues on it (partial knowledge: sync discovers the forgotten neighbours again through third parties)
+//   optionally followed by key=value options (any order):
+//     nb=1|2   rebuild with neighbour hints given to the RemoteIndices constructor (1) / through setNeighbours() (2);
+//              the hints are h<p>=q,q,...  (one token per rank p; missing = none); forgotten pairs are then simply not hinted
+//     self=1   setIncludeSelf(true) before the rebuild;   ign=1  rebuild<true>() (non-public copies take part)
+//     gt=1     second instantiation: GlobalIndex = long (globals shifted by 2^40 inside the driver), default chunk size 100,
+//              the syncer reaches the index set through a const/non-const mix as in gt=0
+//     grow=p:g:a:l:q.ra+q.ra;...   after the deletion rank p adds the new pair (g, a, local l, public) in a resize and inserts a
+//              remote entry (g, remote attribute ra) under every listed q through
+//              RemoteIndexListModifier<..,true>::insert(RemoteIndex, global) + repairLocalIndexPointers()
+//     twice=1|2  after the S dump sync() is run once more with a fresh IndicesSyncer (1) / with the SAME object (2) and a
+//              fresh recording numberer; the line gets a fourth section  # T <world>  (N = calls of the second numberer)
+//     nobar=1  no MPI_Barrier between the two syncs (default: barrier).  Without it a fast rank's message of the second round can be
+//              taken by a slower rank's MPI_Probe(MPI_ANY_SOURCE) of the first round (arrival-order processing)
 // Output: ONE line per case, printed by rank 0:
 //   B <world> # D <world> # S <world>
 //   world  = rank dumps joined by " / ";  rank dump = "I g.a.l.p ... R q:g.la.ra.k,... q:... Y s N g,g,.."
@@ -49,9 +62,9 @@ static void pmpi_sched_reseed(unsigned long long) {}
 
 enum Flag { none_ = 0, owner = 1, overlap = 2, copy_ = 3 };
 typedef Dune::ParallelLocalIndex<Flag> LI;
-typedef Dune::ParallelIndexSet<int, LI, 4> PIS;      // chunk size 4: re-sorting crosses chunk boundaries often
-typedef Dune::RemoteIndices<PIS> RI;
-typedef Dune::IndicesSyncer<PIS> Syncer;
+static const long GSHIFT = 1L << 40;
+template<class G> struct Shift { static G to(int g) { return (G) g; } static long back(G g) { return (long) g; } };
+template<> struct Shift<long> { static long to(int g) { return GSHIFT + g; } static long back(long g) { return g - GSHIFT; } };
 
 static int g_rank = 0;
 static volatile long g_case = 0;
@@ -65,7 +78,11 @@ static void on_alarm(int)
 
 struct Quad { int g, a, pub; long l; };
 struct Case { int P, fixed, num; char del; unsigned long long seed; std::vector<std::vector<Quad> > I; std::vector<std::vector<int> > D;
-              std::vector<std::pair<int,int> > forget; };
+              std::vector<std::pair<int,int> > forget;
+              int nb = 0, self = 0, ign = 0, gt = 0, twice = 0, nobar = 0;
+              std::vector<std::vector<int> > hints;
+              struct Grow { int p, g, a; long l; std::vector<std::pair<int,int> > to; };
+              std::vector<Grow> grow; };
 
 static bool parse(const std::string& line, Case& c)
 {
@@ -82,16 +99,54 @@ static bool parse(const std::string& line, Case& c)
     int m; if (!(is >> m)) return false;
     for (int i = 0; i < m; ++i) { int g; if (!(is >> g)) return false; c.D[p].push_back(g); }
   }
-  int nf = 0;
-  if (is >> nf) for (int i = 0; i < nf; ++i) { int a, b; if (!(is >> a >> b)) return false; c.forget.push_back(std::make_pair(a, b)); }
+  c.hints.assign(c.P, {});
+  std::string tok;
+  bool first = true;
+  while (is >> tok) {
+    std::size_t eq = tok.find('=');
+    if (eq == std::string::npos) {
+      if (!first) return false;
+      int nf = std::atoi(tok.c_str());
+      for (int i = 0; i < nf; ++i) { int a, b; if (!(is >> a >> b)) return false; c.forget.push_back(std::make_pair(a, b)); }
+      first = false; continue;
+    }
+    first = false;
+    std::string k = tok.substr(0, eq), v = tok.substr(eq + 1);
+    if (k == "nb") c.nb = std::atoi(v.c_str());
+    else if (k == "self") c.self = std::atoi(v.c_str());
+    else if (k == "ign") c.ign = std::atoi(v.c_str());
+    else if (k == "gt") c.gt = std::atoi(v.c_str());
+    else if (k == "twice") c.twice = std::atoi(v.c_str());
+    else if (k == "nobar") c.nobar = std::atoi(v.c_str());
+    else if (k[0] == 'h') {
+      int p = std::atoi(k.c_str() + 1); if (p < 0 || p >= c.P) return false;
+      std::istringstream hs(v); std::string q;
+      while (std::getline(hs, q, ',')) if (!q.empty()) c.hints[p].push_back(std::atoi(q.c_str()));
+    }
+    else if (k == "grow") {
+      std::istringstream gs(v); std::string one;
+      while (std::getline(gs, one, ';')) {
+        if (one.empty()) continue;
+        Case::Grow gr; char ch; std::istringstream os(one); std::string rest;
+        if (!(os >> gr.p >> ch >> gr.g >> ch >> gr.a >> ch >> gr.l >> ch)) return false;
+        std::getline(os, rest);
+        std::istringstream ts(rest); std::string t;
+        while (std::getline(ts, t, '+')) { int q, ra; char d; std::istringstream qs(t); if (!(qs >> q >> d >> ra)) return false; gr.to.push_back(std::make_pair(q, ra)); }
+        c.grow.push_back(gr);
+      }
+    }
+    else return false;
+  }
   return true;
 }
 
+template<class G>
 struct RecNumberer
 {
-  std::map<int, long> old; int mode; std::vector<int> calls;
-  std::size_t operator()(const int& g)
+  std::map<long, long> old; int mode; std::vector<long> calls;
+  std::size_t operator()(const G& gg)
   {
+    long g = Shift<G>::back(gg);
     calls.push_back(g);
     if (mode == 1) { auto f = old.find(g); if (f != old.end()) return (std::size_t) f->second; }
     return (std::size_t) (1000 + g);
@@ -104,26 +159,28 @@ static std::string lstr(std::size_t l)
   return std::to_string((unsigned long long) l);
 }
 
-static std::string dump(const PIS& is, const RI& ri, const std::vector<int>* calls)
+template<class PIS, class RI>
+static std::string dump(const PIS& is, const RI& ri, const std::vector<long>* calls)
 {
+  typedef typename PIS::GlobalIndex G;
   std::ostringstream os;
-  std::vector<const PIS::IndexPair*> addr;
+  std::vector<const typename PIS::IndexPair*> addr;
   os << "I";
   for (auto it = is.begin(); it != is.end(); ++it) {
     addr.push_back(&(*it));
-    os << " " << it->global() << "." << (int) it->local().attribute() << "." << lstr(it->local().local()) << "." << (it->local().isPublic() ? 1 : 0);
+    os << " " << Shift<G>::back(it->global()) << "." << (int) it->local().attribute() << "." << lstr(it->local().local()) << "." << (it->local().isPublic() ? 1 : 0);
   }
   os << " R";
   for (auto r = ri.begin(); r != ri.end(); ++r) {
     os << " " << r->first << ":";
     bool first = true;
     for (auto e = r->second.first->begin(); e != r->second.first->end(); ++e) {
-      const PIS::IndexPair* p = &e->localIndexPair();
+      const typename PIS::IndexPair* p = &e->localIndexPair();
       long k = -1;
       for (std::size_t j = 0; j < addr.size(); ++j) if (addr[j] == p) { k = (long) j; break; }
       if (!first) os << ",";
       first = false;
-      if (k >= 0) os << p->global() << "." << (int) p->local().attribute();
+      if (k >= 0) os << Shift<G>::back(p->global()) << "." << (int) p->local().attribute();
       else os << "!.!";
       os << "." << (int) e->attribute() << "." << k;
     }
@@ -152,67 +209,108 @@ static std::string gather(const std::string& mine, MPI_Comm comm, int P, int ran
   return res;
 }
 
-static std::string run_case(const Case& c, MPI_Comm comm, int rank)
+template<class G, int N>
+static std::string run_case_t(const Case& c, MPI_Comm comm, int rank)
 {
+  typedef Dune::ParallelIndexSet<G, LI, N> PIS;
+  typedef Dune::RemoteIndices<PIS> RI;
+  typedef Dune::IndicesSyncer<PIS> Syncer;
+  typedef typename RI::Allocator Alloc;
+  typedef Dune::RemoteIndex<G, Flag> REntry;
   PIS is;
   is.beginResize();
-  for (const Quad& q : c.I[rank]) is.add(q.g, LI((std::size_t) q.l, (Flag) q.a, q.pub != 0));
+  for (const Quad& q : c.I[rank]) is.add(Shift<G>::to(q.g), LI((std::size_t) q.l, (Flag) q.a, q.pub != 0));
   is.endResize();
-  RI ri0(is, is, comm);
-  ri0.rebuild<false>();
+  // ---- rebuild: ring, or neighbour hints through the constructor / setNeighbours; includeSelf; ignorePublic
+  std::vector<int> hints = c.hints[rank];
+  RI ri0(is, is, comm, c.nb == 1 ? hints : std::vector<int>());
+  if (c.nb == 2) ri0.setNeighbours(hints);
+  if (c.self) ri0.setIncludeSelf(true);
+  if (c.ign) ri0.template rebuild<true>(); else ri0.template rebuild<false>();
   std::string B = gather(dump(is, ri0, 0), comm, c.P, rank);
   RI ri1(is, is, comm);
-  if (!c.forget.empty()) {
-    typedef Dune::RemoteIndexListModifier<PIS, RI::Allocator, false> Mod0;
+  bool hand = !c.forget.empty() && c.nb == 0;
+  if (hand) {
+    typedef Dune::RemoteIndexListModifier<PIS, Alloc, false> Mod0;
     for (auto r = ri0.begin(); r != ri0.end(); ++r) {
       bool drop = false;
       for (auto& f : c.forget) if ((f.first == rank && f.second == r->first) || (f.second == rank && f.first == r->first)) drop = true;
       if (drop) continue;
-      Mod0 mod = ri1.getModifier<false, true>(r->first);
+      Mod0 mod = ri1.template getModifier<false, true>(r->first);
       for (auto e = r->second.first->begin(); e != r->second.first->end(); ++e)
-        mod.insert(Dune::RemoteIndex<int, Flag>(e->attribute(), &e->localIndexPair()));
+        mod.insert(REntry(e->attribute(), &e->localIndexPair()));
     }
   }
-  RI& ri = c.forget.empty() ? ri0 : ri1;
+  RI& ri = hand ? ri1 : ri0;
 
-  RecNumberer numb; numb.mode = c.num;
-  for (auto it = is.begin(); it != is.end(); ++it) numb.old[it->global()] = (long) it->local().local();
+  RecNumberer<G> numb; numb.mode = c.num;
+  for (auto it = is.begin(); it != is.end(); ++it) numb.old[Shift<G>::back(it->global())] = (long) it->local().local();
 
   // ---- deletion of the chosen copies together with their remote entries
-  std::set<int> del(c.D[rank].begin(), c.D[rank].end());
+  std::set<G> del;
+  for (int g : c.D[rank]) del.insert(Shift<G>::to(g));
   if (!del.empty()) {
     std::vector<int> nb;
     for (auto r = ri.begin(); r != ri.end(); ++r) nb.push_back(r->first);
     if (c.del == 'M' || c.del == 'm') {
-      typedef Dune::RemoteIndexListModifier<PIS, RI::Allocator, true> Mod;
+      typedef Dune::RemoteIndexListModifier<PIS, Alloc, true> Mod;
       std::vector<Mod*> mods;      // the modifier's copy constructor leaves giter_ pointing into the source: never copy
-      std::vector<std::vector<int> > has(nb.size());
+      std::vector<std::vector<G> > has(nb.size());
       for (std::size_t i = 0; i < nb.size(); ++i) {
         for (auto e = ri.find(nb[i])->second.first->begin(); e != ri.find(nb[i])->second.first->end(); ++e)
           has[i].push_back(e->localIndexPair().global());
-        mods.push_back(new Mod(ri.getModifier<true, true>(nb[i])));
+        mods.push_back(new Mod(ri.template getModifier<true, true>(nb[i])));
       }
       is.beginResize();
       for (auto it = is.begin(); it != is.end(); ++it) if (del.count(it->global())) is.markAsDeleted(it);
       for (std::size_t i = 0; i < nb.size(); ++i)
-        for (int g : has[i]) if (del.count(g)) mods[i]->remove(g);
+        for (G g : has[i]) if (del.count(g)) mods[i]->remove(g);
       is.endResize();
       for (std::size_t i = 0; i < nb.size(); ++i) { mods[i]->repairLocalIndexPointers(); delete mods[i]; }
     } else {
-      typedef Dune::RemoteIndexListModifier<PIS, RI::Allocator, false> Mod;
+      typedef Dune::RemoteIndexListModifier<PIS, Alloc, false> Mod;
       is.beginResize();
       for (auto it = is.begin(); it != is.end(); ++it) if (del.count(it->global())) is.markAsDeleted(it);
       for (std::size_t i = 0; i < nb.size(); ++i) {
-        std::vector<int> has;
+        std::vector<G> has;
         for (auto e = ri.find(nb[i])->second.first->begin(); e != ri.find(nb[i])->second.first->end(); ++e)
           has.push_back(e->localIndexPair().global());
-        Mod mod = ri.getModifier<false, true>(nb[i]);
-        for (int g : has) if (del.count(g)) mod.remove(g);
+        Mod mod = ri.template getModifier<false, true>(nb[i]);
+        for (G g : has) if (del.count(g)) mod.remove(g);
       }
-      std::map<int, Dune::SLList<std::pair<int, Flag>, RI::Allocator> > gmap;
+      std::map<int, Dune::SLList<std::pair<G, Flag>, Alloc> > gmap;
       Dune::storeGlobalIndicesOfRemoteIndices(gmap, ri);
       is.endResize();
       Dune::repairLocalIndexPointers(gmap, ri, is);
+    }
+  }
+  // ---- growth: new pairs with hand-inserted remote entries (RemoteIndexListModifier<..,true>::insert(index, global))
+  {
+    typedef Dune::RemoteIndexListModifier<PIS, Alloc, true> Mod;
+    std::map<int, std::vector<std::pair<G, int> > > ins;     // neighbour -> (global, remote attribute), ascending
+    std::vector<const Case::Grow*> mine;
+    for (const auto& gr : c.grow) if (gr.p == rank) {
+      mine.push_back(&gr);
+      for (auto& t : gr.to) ins[t.first].push_back(std::make_pair(Shift<G>::to(gr.g), t.second));
+    }
+    if (!mine.empty()) {
+      std::vector<Mod*> mods; std::vector<int> keys;
+      // every list needs a modifier: the resize invalidates the pointers of ALL remote entries
+      std::set<int> all;
+      for (auto r = ri.begin(); r != ri.end(); ++r) all.insert(r->first);
+      for (auto& kv : ins) all.insert(kv.first);
+      for (int q : all) { keys.push_back(q); mods.push_back(new Mod(ri.template getModifier<true, true>(q))); }
+      is.beginResize();
+      for (auto* gr : mine) is.add(Shift<G>::to(gr->g), LI((std::size_t) gr->l, (Flag) gr->a, true));
+      for (std::size_t i = 0; i < keys.size(); ++i) {
+        if (!ins.count(keys[i])) continue;
+        auto& v = ins[keys[i]];
+        std::sort(v.begin(), v.end());
+        for (auto& e : v) mods[i]->insert(REntry((Flag) e.second), e.first);
+      }
+      is.endResize();
+      for (std::size_t i = 0; i < keys.size(); ++i) { mods[i]->repairLocalIndexPointers(); delete mods[i]; }
+      for (auto* gr : mine) numb.old[gr->g] = gr->l;
     }
   }
   std::string D = gather(dump(is, ri, 0), comm, c.P, rank);
@@ -220,14 +318,14 @@ static std::string run_case(const Case& c, MPI_Comm comm, int rank)
   // modifier's repair, reported from the D dump), sync would start from garbage: skip it on all ranks.
   {
     int bad = 0;
-    std::set<const PIS::IndexPair*> addr;
+    std::set<const typename PIS::IndexPair*> addr;
     for (auto it = is.begin(); it != is.end(); ++it) addr.insert(&(*it));
     for (auto r = ri.begin(); r != ri.end(); ++r) {
-      int last = std::numeric_limits<int>::min();
+      bool have = false; G last = G();
       for (auto e = r->second.first->begin(); e != r->second.first->end(); ++e) {
         if (!addr.count(&e->localIndexPair())) { bad = 1; break; }
-        if (e->localIndexPair().global() <= last) bad = 1;
-        last = e->localIndexPair().global();
+        if (have && e->localIndexPair().global() <= last) bad = 1;
+        last = e->localIndexPair().global(); have = true;
       }
     }
     int anybad = 0;
@@ -238,14 +336,29 @@ static std::string run_case(const Case& c, MPI_Comm comm, int rank)
 
   // ---- sync
   pmpi_sched_reseed(c.seed);
-  {
-    Syncer syncer(is, ri);
-    if (c.num == 0) syncer.sync();
-    else syncer.sync(numb, c.fixed != 0);
-  }
+  Syncer syncer(is, ri);
+  if (c.num == 0) syncer.sync();
+  else syncer.sync(numb, c.fixed != 0);
   pmpi_sched_reseed(0);
   std::string S = gather(dump(is, ri, &numb.calls), comm, c.P, rank);
-  return "B " + B + " # D " + D + " # S " + S;
+  std::string res = "B " + B + " # D " + D + " # S " + S;
+  if (c.twice) {
+    // a second sync on the (now consistent) state must change nothing and must not ask the numberer for anything
+    RecNumberer<G> numb2; numb2.mode = 2;
+    if (!c.nobar) MPI_Barrier(comm);      // see nobar= in the header comment
+    pmpi_sched_reseed(c.seed + 1);
+    if (c.twice == 2) syncer.sync(numb2, c.fixed != 0);
+    else { Syncer syncer2(is, ri); syncer2.sync(numb2, c.fixed != 0); }
+    pmpi_sched_reseed(0);
+    res += " # T " + gather(dump(is, ri, &numb2.calls), comm, c.P, rank);
+  }
+  return res;
+}
+
+static std::string run_case(const Case& c, MPI_Comm comm, int rank)
+{
+  if (c.gt == 1) return run_case_t<long, 100>(c, comm, rank);
+  return run_case_t<int, 4>(c, comm, rank);      // chunk size 4: re-sorting crosses chunk boundaries often
 }
 
 int main(int argc, char** argv)
